@@ -22,22 +22,21 @@ theorem runs_net (hwf : WF C) {e : Event} {spi0 : List Spi} {i : Nat} {w w' : Te
       ∧ Valid (setting C hwf) ((g.map (lift i)).reverse ++ H)
       ∧ (∀ v h f, LEv.acc v h f ∈ g → ApprovedStep e spi0 h ∨ Locked (setting C hwf) ((g.map (lift i)).reverse ++ H) v h)
       ∧ (∃ l, w'.outs = w.outs ++ l ∧ (∀ rcpt m, Out.send rcpt m ∈ l → AdmMsg C ((g.map (lift i)).reverse ++ H) m)
-          ∧ (SpiA2 e spi0 → BlocksOK w.n → VCBlocksOK w.n →
-              BlocksOK w'.n ∧ VCBlocksOK w'.n ∧ ∀ blk cs, Out.commit blk cs ∈ l → blk.hash = commitHash cs)) := by
+          ∧ (SpiA2 e spi0 → Body w.n → Body w'.n ∧ OutsOK w.n.cfg l)) := by
   induction hr with
   | refl w =>
     intro T H fin _ _ _ _ _ _ _ hc hv
     refine ⟨hc, hv, ?_, [], (List.append_nil _).symm, ?_, ?_⟩
     · intro _ _ _ hm; cases hm
     · intro _ _ hm; cases hm
-    · intro _ hb1 hb2; exact ⟨hb1, hb2, fun _ _ hm => by cases hm⟩
+    · intro _ hb1; exact ⟨hb1, outsOK_nil _⟩
   | blk ho hb =>
     intro T H fin hle hcfg hfin hhon hmem hgate hae hc hv
     have hcb := C01Local.blk_cfg hb
     have hua := Univ.sub hcfg.symm ((blk_storeLe hb).trans hle) hfin
     have hub := Univ.sub (a := _) (by rw [hcb]; exact hcfg.symm) hle hfin
     obtain ⟨r1, r2⟩ := blk_net hwf hb hhon hmem hgate hae hc hv hua hub
-    refine ⟨r1, r2, ?_, _, ho, blk_sends_adm hwf hb hc hua, fun hA2 hb1 hb2 => blk_blocks hwf hb hgate hA2 hc hub hb1 hb2⟩
+    refine ⟨r1, r2, ?_, _, ho, blk_sends_adm hwf hb hc hua, fun hA2 hb1 => blk_body hwf hb hgate hA2 hmem hc hua hub hb1⟩
     intro v h f hm
     rcases blk_origin hwf hb hgate hae hc hv hua v h f hm with ho' | ho'
     · exact Or.inl ho'
@@ -65,14 +64,11 @@ theorem runs_net (hwf : WF C) {e : Event} {spi0 : List Spi} {i : Nat} {w w' : Te
       rcases List.mem_append.mp hm with hm1 | hm2
       · exact AdmEvent.mono (e := .deliver m) (fun _ hx => List.mem_append_right _ hx) (hs1 rcpt m hm1)
       · exact hs2 rcpt m hm2
-    · intro hA2 hb1 hb2
-      obtain ⟨x1, x2, x3⟩ := hk1 hA2 hb1 hb2
-      obtain ⟨y1, y2, y3⟩ := hk2 hA2 x1 x2
-      refine ⟨y1, y2, ?_⟩
-      intro blk cs hm
-      rcases List.mem_append.mp hm with hm1 | hm2
-      · exact x3 blk cs hm1
-      · exact y3 blk cs hm2
+    · intro hA2 hb1
+      obtain ⟨x1, x3⟩ := hk1 hA2 hb1
+      obtain ⟨y1, y3⟩ := hk2 hA2 x1
+      rw [C01Local.runs_cfg r1] at y3
+      exact ⟨y1, outsOK_append x3 y3⟩
 
 /-! ## the network -/
 
@@ -135,7 +131,7 @@ structure NetInv (C : NetCfg) (hwf : WF C) (net : Net) : Prop where
   nodes : ∀ i, C.honest i = true → (∃ m ∈ C.ms, m.id = i) → net.started i = true → NodeInv C net.H i (net.node i) (net.outs i)
 
 theorem univ_init (c : Cfg) : Univ { cfg := c } :=
-  ⟨C03.commitsOK_init c, C11.preparesOK_init c, (by intro p h; cases h), C11.vcsOK_init c, logClean_init c⟩
+  ⟨C03.commitsOK_init c, C11.preparesOK_init c, (by intro p h; cases h), C11.vcsOK_init c, logClean_init c, ownPreparesNL_init c⟩
 
 theorem core_init (C : NetCfg) (H : List Ev) (i : Nat) (hs : H.filter (mine i) = []) :
     Core C H i { cfg := C.cfg i } [] where
@@ -147,18 +143,12 @@ theorem core_init (C : NetCfg) (H : List Ev) (i : Nat) (hs : H.filter (mine i) =
   ownvc := by intro m h; cases h
   prepBlock := by intro pv h; cases h
 
-theorem isMember_of_mem (C : NetCfg) (i : Nat) (hm : ∃ m ∈ C.ms, m.id = i) : isMember (C.cfg i) (C.cfg i).me = true := by
-  obtain ⟨m, hm, hid⟩ := hm
-  unfold isMember
-  rw [List.any_eq_true]
-  exact ⟨m, hm, by simpa [NetCfg.cfg] using hid⟩
-
 /-- the universal log invariants after a step -/
 theorem univ_step (n : Node) (e : Event) (spi : List Spi) (hme : isMember n.cfg n.cfg.me = true)
-    (hstart : ∀ c, e = .start c → n.view = 0) (hcl : EventClean n e) (h : Univ n) : Univ (step n e spi).1 :=
+    (hstart : ∀ c, e = .start c → n.view = 0) (hcl : EventClean n e) (hg : Gate n.cfg e) (h : Univ n) : Univ (step n e spi).1 :=
   ⟨C03.commits_ok_step n e spi hme hstart h.commits, C11.prepares_ok_step n e spi hme hstart h.prepares,
    C04.stored_proposals_are_from_the_leader (step_ev n e spi hstart) h.proposals,
-   C11.vcs_ok_step n e spi hstart h.vcs, step_clean n e spi hcl h.clean⟩
+   C11.vcs_ok_step n e spi hstart h.vcs, step_clean n e spi hcl h.clean, ownPreparesNL_evolves (step_evN n e spi hg) h.ownNL⟩
 
 /-- the ghost statements of another member do not disturb a member's tie to the history -/
 theorem core_frame {H : List Ev} {i j : Nat} (hij : i ≠ j) {n : Node} {T : List LEv} (g : List LEv)
@@ -199,16 +189,15 @@ theorem step_inv (hwf : WF C) (net : Net) (hinv : NetInv C hwf net) (i : Nat) (e
     (hcl : EventClean (net.node i) e) :
     NetInv C hwf ⟨upd net.node i w'.n, upd net.started i true, upd net.outs i (net.outs i ++ w'.outs),
       (g.map (lift i)).reverse ++ net.H, (i, e, spi) :: net.trace⟩
-    ∧ (SpiA2 e spi → BlocksOK (net.node i) → VCBlocksOK (net.node i) →
-        BlocksOK w'.n ∧ VCBlocksOK w'.n ∧ ∀ blk cs, Out.commit blk cs ∈ w'.outs → blk.hash = commitHash cs) := by
+    ∧ (SpiA2 e spi → Body (net.node i) → Body w'.n ∧ OutsOK (C.cfg i) w'.outs) := by
   obtain ⟨T, hcore, herase⟩ := hni.core
   have hcfg : (net.node i).cfg = C.cfg i := hcore.cfg
   have hfin : Univ w'.n := by
-    have := univ_step (net.node i) e spi (by rw [hcfg]; exact isMember_of_mem C i hm) hstart hcl hni.univ
+    have := univ_step (net.node i) e spi (by rw [hcfg]; exact isMember_of_mem C i hm) hstart hcl (by rw [hcfg]; exact hgate) hni.univ
     rw [hst] at this; exact this
   obtain ⟨hc', hv', ho', lnew, hlnew, hsnew, hbody⟩ := runs_net hwf hr w'.n (StoreLe.refl _) (C01Local.runs_cfg hr) hfin hh hm hgate ha hcore hinv.valid
   have hl' : w'.outs = lnew := by simpa using hlnew
-  refine ⟨⟨hv', ?_, ?_, ?_⟩, by rw [hl']; exact hbody⟩
+  refine ⟨⟨hv', ?_, ?_, ?_⟩, by rw [hl', ← hcfg]; exact hbody⟩
   · intro j v h hacc
     dsimp only at hacc ⊢
     rcases List.mem_append.mp hacc with hnew | hold
@@ -287,32 +276,30 @@ theorem reach_inv (hwf : WF C) {net : Net} (hr : Reach C net) : NetInv C hwf net
       · have := eventClean_of_gate (net.node i) e (by rw [hcore.cfg]; exact hg)
         exact this
 
-/-! ## block bodies, under the consumer contract A2 -/
+/-! ## block bodies, own votes and NEW_VIEWs, under the consumer contract A2 -/
 
-/-- for every started correct member: stored proposals and logged votes carry blocks that commit to
-their hashes, and every commit callback got a block that commits to the certified hash -/
+/-- for every correct member: stored proposals and logged votes carry blocks that commit to their
+hashes, its own logged votes pass every check a peer applies, every commit callback got a block that
+commits to the certified hash, and every NEW_VIEW it sent is a valid certificate for every correct
+peer whose view is not higher -/
 def BodyInv (C : NetCfg) (net : Net) : Prop :=
-  ∀ i, C.honest i = true → (∃ m ∈ C.ms, m.id = i) →
-    BlocksOK (net.node i) ∧ VCBlocksOK (net.node i) ∧ ∀ blk cs, Out.commit blk cs ∈ net.outs i → blk.hash = commitHash cs
+  ∀ i, C.honest i = true → (∃ m ∈ C.ms, m.id = i) → Body (net.node i) ∧ OutsOK (C.cfg i) (net.outs i)
 
-theorem bodyInv_fresh (c : Cfg) : BlocksOK { cfg := c } ∧ VCBlocksOK { cfg := c } := by
-  constructor
-  · intro p h; cases h
-  · intro m h; cases h
+theorem body_fresh (c : Cfg) : Body { cfg := c } :=
+  ⟨(by intro p h; cases h), (by intro m h; cases h), (by intro m h; cases h)⟩
 
 /-- **under A2 the block-body invariant holds in every reachable state** -/
 theorem reach_blocks (hwf : WF C) {net : Net} (hr : Reach C net) (hA2 : TraceA2 net.trace) : BodyInv C net := by
   induction hr with
   | init =>
     intro i _ _
-    exact ⟨(bodyInv_fresh _).1, (bodyInv_fresh _).2, fun _ _ hm => by cases hm⟩
+    exact ⟨body_fresh _, outsOK_nil _⟩
   | @step net _ hprev hs ih =>
     have hinv := reach_inv hwf hprev
     -- both kinds of step extend the trace by one entry and run `step_inv`
     have common : ∀ (i : Nat) (e : Event) (spi : List Spi) (w' : Term.W) (g : List LEv),
         C.honest i = true → (∃ m ∈ C.ms, m.id = i) →
-        (SpiA2 e spi → BlocksOK (net.node i) → VCBlocksOK (net.node i) →
-          BlocksOK w'.n ∧ VCBlocksOK w'.n ∧ ∀ blk cs, Out.commit blk cs ∈ w'.outs → blk.hash = commitHash cs) →
+        (SpiA2 e spi → Body (net.node i) → Body w'.n ∧ OutsOK (C.cfg i) w'.outs) →
         TraceA2 ((i, e, spi) :: net.trace) →
         BodyInv C ⟨upd net.node i w'.n, upd net.started i true, upd net.outs i (net.outs i ++ w'.outs),
           (g.map (lift i)).reverse ++ net.H, (i, e, spi) :: net.trace⟩ := by
@@ -322,18 +309,12 @@ theorem reach_blocks (hwf : WF C) {net : Net} (hr : Reach C net) (hA2 : TraceA2 
       intro j hhj hmj
       by_cases hji : j = i
       · subst hji
-        obtain ⟨o1, o2, o3⟩ := hold j hhj hmj
-        obtain ⟨n1, n2, n3⟩ := hstep hA2e o1 o2
-        show BlocksOK (upd net.node j w'.n j) ∧ VCBlocksOK (upd net.node j w'.n j) ∧
-          ∀ blk cs, Out.commit blk cs ∈ upd net.outs j (net.outs j ++ w'.outs) j → blk.hash = commitHash cs
+        obtain ⟨o1, o3⟩ := hold j hhj hmj
+        obtain ⟨n1, n3⟩ := hstep hA2e o1
+        show Body (upd net.node j w'.n j) ∧ OutsOK (C.cfg j) (upd net.outs j (net.outs j ++ w'.outs) j)
         rw [upd_same, upd_same]
-        refine ⟨n1, n2, ?_⟩
-        intro blk cs hmem
-        rcases List.mem_append.mp hmem with h1 | h2
-        · exact o3 blk cs h1
-        · exact n3 blk cs h2
-      · show BlocksOK (upd net.node i w'.n j) ∧ VCBlocksOK (upd net.node i w'.n j) ∧
-          ∀ blk cs, Out.commit blk cs ∈ upd net.outs i (net.outs i ++ w'.outs) j → blk.hash = commitHash cs
+        exact ⟨n1, outsOK_append o3 n3⟩
+      · show Body (upd net.node i w'.n j) ∧ OutsOK (C.cfg j) (upd net.outs i (net.outs i ++ w'.outs) j)
         rw [upd_other _ _ hji, upd_other _ _ hji]
         exact hold j hhj hmj
     cases hs with
